@@ -45,7 +45,7 @@ MANIFEST = dict(
     technique="Lean 4 proofs (refinement of the literal index/insert/extend algorithm to a declarative tree, list lemmas, mutual "
               "structural induction through C07/C09/C10) + differential correspondence check with exhaustive small scopes",
 )
-PROP_FILES = ["HtmlVerif/Props/C11.lean", "HtmlVerif/Props/C11TextDoc.lean", "HtmlVerif/Props/Consts.lean"]
+PROP_FILES = ["HtmlVerif/Props/C11.lean", "HtmlVerif/Props/C11TextDoc.lean", "HtmlVerif/Props/ConstsDoc.lean"]
 
 LPS = [None, "", "lib", "a/b", "a/b/"]
 KWS = [
